@@ -423,103 +423,42 @@ def i2_size_hint_upper(prog):
         r.viol('I2', 'missing', '-', 'Iter::size_hint not found')
         return r
     f = fs[0]
-    body = f.body
-    inner = [(b, t) for b, t in body.calls(lambda c: c['name'] == 'size_hint' and c.get('trait') == 'core::iter::Iterator')
-             if t['args'] and ty_mentions(body.place_ty(op_place(t['args'][0])) or {}, lambda n: n.get('k') == 'adt' and n['path'].startswith('archetypes::'))]
-    r.inst('Iter::size_hint: %d inner size_hint call(s) on the archetype iterator' % len(inner))
-    if len(inner) != 1:
-        r.viol('I2', 'no-inner-size-hint', f.loc(), 'size_hint does not consult the archetype iterator: it cannot bound the entities of archetypes not yet visited')
+    E = pathsem.analyse(prog, f)
+    rets = [p for p in E.paths if p.ended == 'return']
+    S = pathsem.strip_refs
+    if E.truncated or not rets:
+        r.viol('I2', 'not-analysable', f.loc(), 'path enumeration cut off')
         return r
-    ib, it = inner[0]
-    # where does the value live? (local, projection prefix)
-    homes = [(it['dest']['l'], [])]
-    changed = True
-    while changed:
-        changed = False
-        for b, i, s in body.stmts():
-            if s['k'] != 'assign' or s['place']['p']:
-                continue
-            rv = s['rv']
-            for (l, pre) in list(homes):
-                if rv['k'] == 'use' and op_local(rv['op']) == l and not pre:
-                    h = (s['place']['l'], [])
-                elif rv['k'] == 'agg' and rv['agg'] == 'tuple':
-                    h = None
-                    for k, o in enumerate(rv['ops']):
-                        if op_local(o) == l and not pre:
-                            h = (s['place']['l'], [k])
-                else:
-                    h = None
-                if h is not None and h not in homes:
-                    homes.append(h)
-                    changed = True
+    n_inner = 0
+    bad = None
+    for p in rets:
+        inner = [e for e in p.calls(lambda e: e['name'] == 'size_hint' and e['f'].get('trait') == 'core::iter::Iterator')
+                 if any(ty_mentions(a_, lambda n: n.get('k') == 'adt' and n['path'].startswith('archetypes::')) for a_ in e['f'].get('args', []))]
+        n_inner = max(n_inner, len(inner))
+        v = p.ret
+        upper = v[4][1] if isinstance(v, tuple) and v[0] == 'agg' and v[1] == 'tuple' and len(v[4]) == 2 else None
+        if upper == pathsem.NONE:
+            continue
+        if not inner:
+            r.viol('I2', 'no-inner-size-hint', f.loc(), 'size_hint does not consult the archetype iterator: it cannot bound the entities of archetypes not yet visited')
+            return r
+        sh = inner[0]['ret']
 
-    def reads_upper(place):
-        for (l, pre) in homes:
-            if place['l'] != l:
-                continue
-            fl = [e['f'] for e in place['p'] if isinstance(e, dict) and 'f' in e]
-            if fl[:len(pre) + 1] == pre + [1]:
-                return True
-        return False
-
-    def switch_reads_upper(sb):
-        st = body.term(sb)
-        p = op_place(st['discr'])
-        if p is None:
-            return False
-        if p['p']:
-            return reads_upper(p)
-        d = single_def(body, p['l'])
-        if d and d[0] == 'assign':
-            rv = d[3]['rv']
-            if rv['k'] == 'discr':
-                return reads_upper(rv['place'])
-            for q in rv_operands(rv):
-                if reads_upper(q):
+        def reads_upper(a_):
+            for t in pathsem.subterms(a_):
+                if t[0] == 'f' and t[2] == 1 and t[3] == 'tuple' and S(t[1]) == sh:
                     return True
-        if d and d[0] == 'call':
-            for a in d[2]['args']:
-                q = op_place(a)
-                if q is not None:
-                    acc = access_of_place(body, q)
-                    # a reference to <home>.1 passed to a comparison
-                    for (l, pre) in homes:
-                        fl = [s_[1] for s_ in acc.steps if isinstance(s_, tuple) and s_[0] == 'f']
-                        if acc.root == l and fl[:len(pre) + 1] == pre + [1]:
-                            return True
-        return False
-    # result blocks with a (possibly) finite upper bound: tuples whose second component is not a literal
-    # None, and results produced wholesale by a call (e.g. forwarding the current archetype's size_hint)
-    sites = []
-    for b, i, s in body.stmts():
-        if s['k'] == 'assign' and s['place']['l'] == 0 and not s['place']['p']:
-            if s['rv']['k'] == 'agg' and s['rv']['agg'] == 'tuple' and len(s['rv']['ops']) == 2:
-                ul = op_local(s['rv']['ops'][1])
-                d = resolve_def(body, ul) if ul is not None else None
-                is_none = bool(d and d[0] == 'assign' and d[3]['rv']['k'] == 'agg' and d[3]['rv'].get('vname') == 'None')
-                if not is_none:
-                    sites.append((b, s['ln']))
-            else:
-                sites.append((b, s['ln']))
-    for b in range(body.n):
-        t = body.term(b)
-        if t['k'] == 'call' and t['dest']['l'] == 0 and not t['dest']['p'] and b != ib:
-            sites.append((t['target'] if t['target'] is not None else b, t['ln']))
-    for b, ln in sites:
-        if True:
-            s = {'ln': ln}
-            ok = False
-            for sb in range(body.n):
-                st = body.term(sb)
-                if st['k'] != 'switch':
-                    continue
-                for tgt in set(st['targets'] + [st['otherwise']]):
-                    if body.edge_dominates((sb, tgt), b) and switch_reads_upper(sb):
-                        ok = True
-            if not ok:
-                r.viol('I2', 'finite-upper-without-inner-upper', f.loc(s['ln']),
-                       'a finite upper bound is returned without the decision depending on the archetype iterator\'s upper bound: while archetypes remain, the reported upper bound can be below the number of results still to come')
+                if t[0] == 'call' and any(S(x) == sh for x in t[2]) and t != sh:
+                    return True      # whole-tuple comparison
+                if t[0] == 'bin' and (S(t[2]) == sh or S(t[3]) == sh):
+                    return True
+            return False
+        if not any(reads_upper(a_) for a_, _ in p.conds):
+            bad = bad or p
+    r.inst('Iter::size_hint: %d returning paths, %d inner size_hint call(s) on the archetype iterator' % (len(rets), n_inner))
+    if bad is not None:
+        r.viol('I2', 'finite-upper-without-inner-upper', f.loc(),
+               'a finite upper bound is returned without the decision depending on the archetype iterator\'s upper bound: while archetypes remain, the reported upper bound can be below the number of results still to come')
     return r
 
 
